@@ -310,7 +310,7 @@ def _quantile_case(args):
 
 
 def run(ctx):
-    n = 8 if ctx.quick else 10
+    n = 9 if ctx.quick else 10
     total = 2 ** n
     step = max(1, total // 32)
     items = [(n, lo, min(lo + step, total), ctx.seed)
@@ -327,7 +327,7 @@ def run(ctx):
         viols.extend(vs)
     cov = {"evaluations": cnt, "distinct_nontrivial": cnt - 2 * len(items),
            "masks": total,
-           "rule": "all 2^N filter masks (N=8 quick / 10 thorough) on a "
+           "rule": "all 2^N filter masks (N=9 quick / 10 thorough) on a "
                    "dataset whose excluded events carry poison values "
                    "(1e12, NaN, inf, negative, 1e300); per mask: all "
                    "statistics x 2 features, 3 KDE types x linear/log x "
